@@ -125,9 +125,10 @@ class _Linalg:
 
     def norm(self, x, ord=None, axis=None, **kw):
         if has_sym(x) and axis is None and ord in (None, 2):
-            sq = fold_sum([i * i for i in _np.asarray(x, dtype=object).ravel()])
+            comps = list(_np.asarray(x, dtype=object).ravel())
+            sq = fold_sum([i * i for i in comps])
             if isinstance(sq, SymReal):
-                return S.SymNorm(sq.t)
+                return S.SymNorm(sq.t, one=comps[0].t if len(comps) == 1 and isinstance(comps[0], SymReal) else None)
             return _math.sqrt(sq)
         return self._r.norm(x, ord=ord, axis=axis, **kw)
 
